@@ -7,7 +7,7 @@
    installed for Coq 8.16.  Complex s is not covered (no complex improper integrals in Coquelicot 3.x). *)
 From Coq Require Import Reals Lra.
 From Coquelicot Require Import Coquelicot.
-Require Import LT.FieldSec LT.PolyQ LT.ExpPoly LT.LaplaceSig LT.LaplaceModel LT.LaplaceAnalysis LT.LaplaceLink.
+Require Import LT.FieldSec LT.PolyQ LT.ExpPoly LT.LaplaceSig LT.LaplaceModel LT.LaplaceAnalysis LT.LaplaceLink LT.LaplacePointwise.
 Open Scope R_scope.
 
 Theorem integral_tn_exp (n : nat) (p s : R) : p < s ->
@@ -53,7 +53,15 @@ Proof. exact (dL_is_integral X s). Qed.
 Theorem nf_is_integral_C09 (N : nf RFld) (s : R) : nf_classical s N -> LT (nf_fun N) s (nf_val RFld exp s N).
 Proof. exact (nf_is_integral N s). Qed.
 
+(* the algebra that gives products of factors their meaning is the pointwise algebra of the real functions:
+   tmul = product, tshift d = x(t + d)  (so the normal form of  t^n e^{at} sin.. u(t - T)  really is that function) *)
+Theorem product_is_pointwise (l m : list (rterm RFld)) (t : R) : sval (tmul l m) t = sval l t * sval m t.
+Proof. exact (sval_tmul l m t). Qed.
+Theorem shift_is_pointwise (d : R) (l : list (rterm RFld)) (t : R) : sval (tshift RFld exp d l) t = sval l (t + d).
+Proof. exact (sval_tshift d l t). Qed.
+
 Print Assumptions integral_tn_exp.
+Print Assumptions product_is_pointwise.
 Print Assumptions integral_sin.
 Print Assumptions integral_linear.
 Print Assumptions integral_ignores_past.
